@@ -63,9 +63,25 @@ def collision_tree(seed, k):
     return spec
 
 
+def cross_tree():
+    """The hand-written tree plus cross-directory references in every direction the package layering
+    supports (a later-imported package using types of an earlier one, siblings included)."""
+    spec = campaign.corpus_spec()
+    F = S.Field
+    # (the hand-written tree's map -> pub reference would make pub an early package: not in this tree)
+    spec.files["map"].structs = [s for s in spec.files["map"].structs if s.name != "MapItemSpawn"]
+    spec.files["net/client"].structs.append(S.Struct("CliThing", [F("a", "char")]))
+    spec.files["net/server"].structs.append(S.Struct("SrvThing", [F("a", "short")]))
+    spec.files["net/server"].structs.append(S.Struct("SrvUsesCli", [F("t", "CliThing"), F("d", "Direction")]))
+    spec.files["pub"].structs.append(S.Struct("PubUsesSrv", [F("t", "SrvThing"), F("k", "InitReply")]))
+    spec.files["pub/server"].structs.append(S.Struct("PubSrvUsesCli", [F("t", "CliThing"), F("w", "WalkAction"), F("p", "PubUsesSrv")]))
+    spec.files["map"].structs.append(S.Struct("MapUsesNet", [F("v", "Version"), F("w", "Weight")]))
+    return spec
+
+
 def shards(tier, seed):
     out = []
-    for ti in [-1] + list(range(TREES[tier])) + [1000 + k for k in range(N_COLLISION[tier])]:
+    for ti in [-1, 2000] + list(range(TREES[tier])) + [1000 + k for k in range(N_COLLISION[tier])]:
         for part in range(4):
             out.append({"tree": ti, "part": part, "parts": 4})
     return out
@@ -86,7 +102,10 @@ def classify(mech, text, hazards=()):
 
 def run(shard, rec, tier, seed):
     ti = shard["tree"]
-    if ti >= 1000:
+    if ti == 2000:
+        spec = cross_tree()
+        rec.count("cross-reference-trees")
+    elif ti >= 1000:
         spec = collision_tree(seed, ti - 1000)
         rec.count("collision-trees")
         # the previous collision tree (same names, other directories) goes through the generator first in
